@@ -1862,11 +1862,25 @@ def split_selector_conditionals(fn, rec_names):
                     xn = t.id
 
                 def ends_with_assign(blk):
-                    return bool(blk) and isinstance(blk[-1], ast.Assign) and len(blk[-1].targets) == 1 and isinstance(blk[-1].targets[0], ast.Name) and blk[-1].targets[0].id == xn
+                    if not blk:
+                        return False
+                    last = blk[-1]
+                    if isinstance(last, ast.Assign) and len(last.targets) == 1 and isinstance(last.targets[0], ast.Name) and last.targets[0].id == xn:
+                        return True
+                    # ... or with an if / else whose branches both end that way
+                    return isinstance(last, ast.If) and bool(last.orelse) and ends_with_assign(last.body) and ends_with_assign(last.orelse)
+
+                def sink(blk):
+                    last = blk[-1]
+                    if isinstance(last, ast.If):
+                        sink(last.body)
+                        sink(last.orelse)
+                    else:
+                        blk.append(copy.deepcopy(b))
 
                 if xn is not None and xn not in rec_names and ends_with_assign(a.body) and ends_with_assign(a.orelse) and not used_later(xn, body[i + 2 :] + tail_after):
-                    a.body.append(copy.deepcopy(b))
-                    a.orelse.append(copy.deepcopy(b))
+                    sink(a.body)
+                    sink(a.orelse)
                     del body[i + 1]
                     done[0] += 1
                     continue
